@@ -13,12 +13,6 @@ struct FreePtr(*const (dyn Fn() -> bool + 'static));
 unsafe impl Send for FreePtr {}
 
 #[derive(Clone, Copy, PartialEq, Eq, Debug)]
-enum Turn {
-    Controller,
-    Worker(usize),
-}
-
-#[derive(Clone, Copy, PartialEq, Eq, Debug)]
 enum Status {
     NotStarted,
     Parked,
@@ -32,19 +26,34 @@ struct Th {
     free: Option<FreePtr>,
 }
 
+pub type Monitor = Box<dyn FnMut(usize, &str) + Send>;
+
 struct St {
-    turn: Turn,
+    /// the worker that may run (None while a decision is pending or the execution is over)
+    turn: Option<usize>,
     th: Vec<Th>,
+    points: Vec<PointRec>,
+    running: Option<usize>,
+    prefix: Vec<usize>,
+    outcome: Option<Outcome>,
+    progress: u64,
+    started: bool,
+    abandon: bool,
+    monitor: Option<Monitor>,
 }
 
 pub struct Inner {
     m: Mutex<St>,
-    cv: Condvar,
+    /// one condition variable per worker (targeted wake-ups) and one for the coordinating main thread
+    cvs: Vec<Condvar>,
+    cv_main: Condvar,
     pub clock: AtomicU64,
 }
 
 thread_local! {
     static WORKER: Cell<Option<usize>> = const { Cell::new(None) };
+    /// set while this thread runs the monitor inside a decision: its own lock / filesystem calls are not scheduling points
+    static IN_MONITOR: Cell<bool> = const { Cell::new(false) };
 }
 static ACTIVE: Mutex<Option<Arc<Inner>>> = Mutex::new(None);
 
@@ -55,20 +64,96 @@ fn active() -> Option<Arc<Inner>> {
     ACTIVE.lock().unwrap().clone()
 }
 
-/// Park the calling worker at a scheduling point until the controller grants it the turn.
+/// The scheduling decision. Runs under the scheduler mutex in whichever thread just parked or finished (or in
+/// the main thread for the very first decision): every worker is parked or finished at that moment, so
+/// evaluating their lock predicates and running the monitor is race-free. If the decision is "keep running
+/// the caller", no context switch happens at all.
+fn decide(inner: &Inner, st: &mut St) {
+    if st.outcome.is_some() || !st.started || st.turn.is_some() {
+        return;
+    }
+    if st.th.iter().any(|t| matches!(t.status, Status::NotStarted | Status::Running)) {
+        return;
+    }
+    if st.th.iter().all(|t| t.status == Status::Finished) {
+        st.outcome = Some(Outcome::Completed);
+        inner.cv_main.notify_all();
+        return;
+    }
+    let mut enabled: Vec<usize> = Vec::new();
+    for (i, t) in st.th.iter().enumerate() {
+        if t.status == Status::Parked {
+            let free = match &t.free {
+                None => true,
+                Some(FreePtr(p)) => unsafe { (&**p)() },
+            };
+            if free {
+                enabled.push(i);
+            }
+        }
+    }
+    if enabled.is_empty() {
+        let waiting = st.th.iter().enumerate().filter(|(_, t)| t.status == Status::Parked).map(|(i, t)| format!("T{i}@{}", t.label)).collect();
+        st.outcome = Some(Outcome::Deadlock { waiting });
+        inner.cv_main.notify_all();
+        return;
+    }
+    let running_enabled = st.running.map_or(false, |r| enabled.contains(&r));
+    if running_enabled {
+        let r = st.running.unwrap();
+        enabled.retain(|x| *x != r);
+        enabled.insert(0, r);
+    }
+    let step = st.points.len();
+    let idx = if step < st.prefix.len() { st.prefix[step] } else { 0 };
+    if idx >= enabled.len() {
+        st.outcome = Some(Outcome::Diverged(format!("replaying choice {idx} at point {step} but only {} threads are enabled", enabled.len())));
+        inner.cv_main.notify_all();
+        return;
+    }
+    let chosen = enabled[idx];
+    let label = format!("T{chosen}@{}", st.th[chosen].label);
+    let prev = st.points.last().map_or(String::new(), |p| p.label.clone());
+    if let Some(mut mon) = st.monitor.take() {
+        let was = shim::is_participant();
+        IN_MONITOR.with(|f| f.set(true));
+        shim::participate(false);
+        mon(step, &prev);
+        shim::participate(was);
+        IN_MONITOR.with(|f| f.set(false));
+        st.monitor = Some(mon);
+    }
+    st.points.push(PointRec { enabled, chosen, running_enabled, label });
+    st.running = Some(chosen);
+    st.turn = Some(chosen);
+    st.progress += 1;
+    inner.cvs[chosen].notify_one();
+}
+
+/// Park the calling worker at a scheduling point until it is granted the turn (possibly at once).
 fn yield_here(label: String, free: Option<FreePtr>) {
+    if IN_MONITOR.with(|f| f.get()) {
+        return;
+    }
     let Some(id) = WORKER.with(|w| w.get()) else { return };
     let Some(inner) = active() else { return };
     let mut st = inner.m.lock().unwrap();
+    if st.abandon {
+        return;
+    }
+    let first = st.th[id].status == Status::NotStarted;
     st.th[id].status = Status::Parked;
     st.th[id].label = label;
     st.th[id].free = free;
-    if st.turn == Turn::Worker(id) {
-        st.turn = Turn::Controller;
+    if st.turn == Some(id) {
+        st.turn = None;
     }
-    inner.cv.notify_all();
-    while st.turn != Turn::Worker(id) {
-        st = inner.cv.wait(st).unwrap();
+    if first {
+        inner.cv_main.notify_all();
+    }
+    decide(&inner, &mut st);
+    while st.turn != Some(id) && !st.abandon {
+        st = inner.cvs[id].wait(st).unwrap();
     }
     st.th[id].status = Status::Running;
     st.th[id].free = None;
@@ -175,18 +260,23 @@ pub type Body = Box<dyn FnOnce() + Send + 'static>;
 
 /// Run `bodies` (one per worker) under the schedule given by `prefix` (indices into the canonical enabled
 /// list), defaults afterwards. `monitor` is called at every decision point while every worker is parked.
-pub fn run_schedule(
-    root: &std::path::Path,
-    bodies: Vec<Body>,
-    prefix: &[usize],
-    visible: fn(&Event<'_>) -> bool,
-    monitor: &mut dyn FnMut(usize, &str),
-    stuck_timeout: Duration,
-) -> Execution {
+pub fn run_schedule(root: &std::path::Path, bodies: Vec<Body>, prefix: &[usize], visible: fn(&Event<'_>) -> bool, monitor: Monitor, stuck_timeout: Duration) -> Execution {
     let n = bodies.len();
     let inner = Arc::new(Inner {
-        m: Mutex::new(St { turn: Turn::Controller, th: (0..n).map(|_| Th { status: Status::NotStarted, label: String::new(), free: None }).collect() }),
-        cv: Condvar::new(),
+        m: Mutex::new(St {
+            turn: None,
+            th: (0..n).map(|_| Th { status: Status::NotStarted, label: String::new(), free: None }).collect(),
+            points: Vec::new(),
+            running: None,
+            prefix: prefix.to_vec(),
+            outcome: None,
+            progress: 0,
+            started: false,
+            abandon: false,
+            monitor: Some(monitor),
+        }),
+        cvs: (0..n).map(|_| Condvar::new()).collect(),
+        cv_main: Condvar::new(),
         clock: AtomicU64::new(0),
     });
     *ACTIVE.lock().unwrap() = Some(inner.clone());
@@ -221,113 +311,65 @@ pub fn run_schedule(
             shim::participate(false);
             let mut st = inner2.m.lock().unwrap();
             st.th[id].status = Status::Finished;
-            if st.turn == Turn::Worker(id) {
-                st.turn = Turn::Controller;
+            st.th[id].free = None;
+            if st.turn == Some(id) {
+                st.turn = None;
             }
-            inner2.cv.notify_all();
+            if !st.abandon {
+                decide(&inner2, &mut st);
+            }
+            drop(st);
             WORKER.with(|w| w.set(None));
         }));
     }
-    let mut points: Vec<PointRec> = Vec::new();
-    let mut running: Option<usize> = None;
-    let mut step = 0usize;
+    // first decision once every worker is parked at its start point; then wait for the end of the execution
+    let mut st = inner.m.lock().unwrap();
+    let mut waited = Duration::ZERO;
+    let mut last_progress = 0u64;
     let outcome = loop {
-        // wait until every worker is parked or finished and the turn is ours
-        let mut st = inner.m.lock().unwrap();
-        let mut waited = Duration::ZERO;
-        let mut stuck: Option<usize> = None;
-        loop {
-            let all_quiet = st.turn == Turn::Controller && st.th.iter().all(|t| matches!(t.status, Status::Parked | Status::Finished));
-            if all_quiet {
-                break;
-            }
-            let (g, to) = inner.cv.wait_timeout(st, Duration::from_millis(200)).unwrap();
-            st = g;
-            if to.timed_out() {
-                waited += Duration::from_millis(200);
-                if waited >= stuck_timeout {
-                    if let Turn::Worker(t) = st.turn {
-                        stuck = Some(t);
-                    } else {
-                        stuck = st.th.iter().position(|t| matches!(t.status, Status::Running | Status::NotStarted));
-                    }
-                    break;
-                }
+        if !st.started && st.th.iter().all(|t| t.status != Status::NotStarted) {
+            st.started = true;
+            decide(&inner, &mut st);
+        }
+        if let Some(o) = st.outcome.take() {
+            break o;
+        }
+        let (g, to) = inner.cv_main.wait_timeout(st, Duration::from_millis(250)).unwrap();
+        st = g;
+        if st.progress != last_progress {
+            last_progress = st.progress;
+            waited = Duration::ZERO;
+        } else if to.timed_out() {
+            waited += Duration::from_millis(250);
+            if waited >= stuck_timeout && st.outcome.is_none() {
+                let t = st.turn.or_else(|| st.th.iter().position(|t| matches!(t.status, Status::Running | Status::NotStarted))).unwrap_or(0);
+                let label = st.points.last().map_or(String::new(), |p| p.label.clone());
+                break Outcome::Stuck { thread: t, label };
             }
         }
-        if let Some(t) = stuck {
-            let label = st.th[t].label.clone();
-            break Outcome::Stuck { thread: t, label };
-        }
-        if st.th.iter().all(|t| t.status == Status::Finished) {
-            break Outcome::Completed;
-        }
-        // enabled set (all workers are parked: evaluating their lock predicates is race-free)
-        let mut enabled: Vec<usize> = Vec::new();
-        for (i, t) in st.th.iter().enumerate() {
-            if t.status == Status::Parked {
-                let free = match &t.free {
-                    None => true,
-                    Some(FreePtr(p)) => unsafe { (&**p)() },
-                };
-                if free {
-                    enabled.push(i);
-                }
-            }
-        }
-        if enabled.is_empty() {
-            let waiting = st.th.iter().enumerate().filter(|(_, t)| t.status == Status::Parked).map(|(i, t)| format!("T{i}@{}", t.label)).collect();
-            // release everybody so the threads can be joined: a deadlocked execution is abandoned
-            break Outcome::Deadlock { waiting };
-        }
-        let running_enabled = running.map_or(false, |r| enabled.contains(&r));
-        if running_enabled {
-            let r = running.unwrap();
-            enabled.retain(|x| *x != r);
-            enabled.insert(0, r);
-        }
-        let idx = if step < prefix.len() { prefix[step] } else { 0 };
-        if idx >= enabled.len() {
-            break Outcome::Diverged(format!("replaying choice {idx} at point {step} but only {} threads are enabled", enabled.len()));
-        }
-        let chosen = enabled[idx];
-        let label = format!("T{chosen}@{}", st.th[chosen].label);
-        drop(st);
-        let prev = points.last().map_or(String::new(), |p: &PointRec| p.label.clone());
-        monitor(step, &prev);
-        points.push(PointRec { enabled, chosen, running_enabled, label });
-        step += 1;
-        running = Some(chosen);
-        let mut st = inner.m.lock().unwrap();
-        st.turn = Turn::Worker(chosen);
-        inner.cv.notify_all();
-        drop(st);
     };
+    let points = std::mem::take(&mut st.points);
+    st.monitor = None;
     match &outcome {
         Outcome::Completed => {
+            drop(st);
             for h in handles {
                 let _ = h.join();
             }
         }
         _ => {
-            // abandon: let every parked thread run freely to completion if it can; detach the rest
-            {
-                let mut st = inner.m.lock().unwrap();
-                for t in st.th.iter_mut() {
-                    t.free = None;
-                }
+            // abandon the execution: every parked worker is released and runs freely from here on (a really
+            // deadlocked or hung thread stays blocked and is leaked; it holds nothing the next execution needs)
+            st.abandon = true;
+            for t in st.th.iter_mut() {
+                t.free = None;
             }
+            for cv in &inner.cvs {
+                cv.notify_all();
+            }
+            drop(st);
             *ACTIVE.lock().unwrap() = None;
-            // wake everybody: yield_here re-checks ACTIVE only on entry, so grant turns one by one
-            for id in 0..n {
-                let mut st = inner.m.lock().unwrap();
-                if st.th[id].status == Status::Parked {
-                    st.turn = Turn::Worker(id);
-                    inner.cv.notify_all();
-                    drop(st);
-                    std::thread::sleep(Duration::from_millis(20));
-                }
-            }
+            std::thread::sleep(Duration::from_millis(50));
             drop(handles);
         }
     }
